@@ -14,8 +14,8 @@
 (*   Read       read the live file whole                                   *)
 (*   UBegin     the upload request reaches the bucket (body = what was     *)
 (*              read)                                                      *)
-(*   UEnd(ok)   the bucket answers, or the request fails / times out after *)
-(*              five minutes / is cancelled; success records the           *)
+(*   UEnd(ok)   the bucket answers, or the request fails / the client gives *)
+(*              up on a stalled one / it is cancelled; success records the *)
 (*              generation read by Check as covered                        *)
 (*   WaitOver   a minute has passed since the wait began                   *)
 (*   Exit       the server's context is cancelled: the task ends -- from   *)
@@ -81,12 +81,12 @@ UBegin ==
           /\ UNCHANGED until
   /\ UNCHANGED <<gen, last, s3, cancelled, now, quiet>>
 
-\* the outcome: the bucket's answer, or the five-minute limit / cancellation ending a request still in flight
-MustFail == cancelled \/ now >= cur.since + UploadTimeout
+\* the outcome: the bucket's answer, or the client's own time limit / cancellation ending a request still in flight
+MustFail == cancelled
 UEnd(ok) ==
   /\ pc = "upload"
   /\ (ok => (s3 = "ok" /\ ~MustFail))
-  /\ (~ok => (s3 = "fail" \/ MustFail))
+  /\ (~ok => (s3 = "fail" \/ s3 = "hold" \/ MustFail))     \* a stalled request fails whenever the client gives up on it
   /\ ups' = [ups EXCEPT ![Len(ups)].ok = IF ok THEN "ok" ELSE "fail"]
   /\ last' = IF ok THEN cur.g ELSE last
   /\ pc' = "wait" /\ until' = now + Minute
@@ -126,7 +126,7 @@ Urgent ==
   \/ pc \in {"check", "read", "ubegin"}
   \/ (pc = "wait" /\ (cancelled \/ now >= until))
   \/ (pc = "upload" /\ (s3 # "hold" \/ MustFail))
-Timers == (IF pc = "wait" THEN {until} ELSE {}) \cup (IF pc = "upload" THEN {cur.since + UploadTimeout} ELSE {})
+Timers == IF pc = "wait" THEN {until} ELSE {}
 Advance(t) ==
   /\ t > now /\ ~Urgent /\ \A d \in Timers : t <= d
   /\ now' = t
